@@ -120,6 +120,29 @@ def safe_division_sites(fn: FunctionInfo, rep: Report, rule: str):
     return n_sites
 
 
+def stopping_rules_for(idx: ProgramIndex, rep: Report, prop: str, rule: str) -> None:
+    """Re-emit, under another property's rule id, the C08 rules that decide WHEN the solver stops and says so (M: the
+    convergence measure is the residual; X: the early exit is controlled by tolerance and residual norm; W: the warning
+    test lies on every path): they are the structural part of `a CG solve meets the configured tolerance or warns`."""
+    sub = Report("C08", "quick", rep.root)
+    sub.quiet = True
+    run(idx, sub, "quick", selftest=False)
+    n = 0
+    for rname in ("C08.M", "C08.X", "C08.W"):
+        st = sub.rules.get(rname)
+        if st is None:
+            continue
+        bad = [f for f in sub.findings if f.rule == rname]
+        for _ in range(max(st.instances - len(bad), 0)):
+            rep.count(rule)
+            n += 1
+        for f in bad:
+            n += 1
+            rep.bad(rule, Finding(prop, rule, f.function, f.construct, f"[{rname}] {f.message}", f.loc))
+    for e in sub.errors:
+        rep.error(f"linear_cg stopping rules: {e}")
+
+
 def run(idx: ProgramIndex, rep: Report, tier: str, selftest: bool = True):
     rep.extra["explanation"] = (
         "Dependence and dominance rules over the CFGs of linear_cg and its two jit helpers. They decide, for all inputs, "
